@@ -5,6 +5,10 @@ Correspondence: real soup client / soup server / FIX sessions under the virtual-
 Oracle (implementation only): the property statement evaluated on the observed writes with the interval of the
 session's *own role* — (a) every window (t, t+2I] before close contains a write, (b) idle periods between ticks get
 exactly one heartbeat, (c) no heartbeat at a tick when the application sent something since the previous tick.
+"Application sends" are the application messages that were actually *written*: "every pattern of application sends" includes send
+attempts the library rejects (`sendfail:*` events: the call raises before the write — validation failure, value that cannot be
+encoded, oversized payload); such an attempt transmits nothing, so it neither serves a window of (a) nor excuses a missing
+heartbeat in (b).  Schedules contain them at every phase relative to the ticks (Props/C08Failed.lean: erasable from any history).
 """
 import itertools
 import json
@@ -13,7 +17,7 @@ import monitor_common as mc
 from monitor_common import own_interval, life, describe
 
 DRIVER = 'drv_C08'
-LEAN_TARGETS = ['NasdaqModel.Props.C08', 'drv_C08']
+LEAN_TARGETS = ['NasdaqModel.Props.C08', 'NasdaqModel.Props.C08Failed', 'drv_C08']
 KNOWN_LOCAL = [k for k in mc.KNOWN_LOCAL if k['property'] == 'C08']
 
 
@@ -69,18 +73,39 @@ def classify(case, obs, fails):
 
 # ------------------------------------------------------------------ generators
 def exhaustive(role, I, k, far):
-    """all schedules of at most k sends on the odd instants of the first four intervals"""
+    """all schedules of at most k send attempts — each one either accepted (`send`) or rejected by the library (`sendfail`) — on the
+    odd instants of the first four intervals"""
     pts = mc.odd_points(0, 4 * I)
     H = 6 * I + 1
     out = []
     for n in range(k + 1):
-        for sub in itertools.combinations(pts, n):
-            sends = [[t, 'send'] for t in sub]
+      for sub in itertools.combinations(pts, n):
+        for kinds in itertools.product(['send', 'sendfail'], repeat=n):
+            sends = [[t, kd] for t, kd in zip(sub, kinds)]
             if role == 'soupServer':
                 out.append({'role': role, 'ci': I, 'si': I, 'events': mc.merge(sends, mc.feed(6, H)), 'horizon': H})
             else:
                 out.append({'role': role, 'ci': I, 'si': far, 'events': sends, 'horizon': H})
     return out
+
+
+def failing_sends(rng, I, H, sends):
+    """rejected send attempts to go with the accepted `sends` of a schedule (odd instants)"""
+    odd = mc.odd_points(0, H)
+    style = rng.random()
+    if style < 0.3:                      # a few isolated rejected attempts
+        return rng.sample(odd, min(len(odd), rng.randrange(1, 5)))
+    if style < 0.55:                     # an application that retries an invalid message about once per interval, from some moment on
+        start = rng.choice(odd)
+        p = rng.choice([I - 2, I, I, I + 2, 2 * I - 2])
+        return list(range(start, H, max(2, p)))
+    if style < 0.8:                      # rejected attempts hugging the ticks (just before / just after)
+        return [k * I + rng.choice([-1, 1]) for k in range(1, H // I + 1) if rng.random() < 0.6]
+    # the same message retried a few times right after an accepted send
+    out = []
+    for t in sends[:3]:
+        out += [t + 2 * j for j in range(1, rng.randrange(2, 5))]
+    return out or [rng.choice(odd)]
 
 
 def random_case(rng, thorough):
@@ -120,6 +145,9 @@ def random_case(rng, thorough):
         p = rng.choice([I - 2, I, I + 2, 2 * I - 2, 2 * I, 2 * I + 2])
         sends = list(range(rng.choice([1, 3, 5]), H, max(2, p)))
     ev += [[t, 'send'] for t in sends if 0 < t < H]
+    if rng.random() < 0.5:
+        taken = set(sends)
+        ev += [[t, 'sendfail'] for t in sorted(set(failing_sends(rng, I, H, sorted(sends)))) if 0 < t < H and t not in taken]
     ev += [[t, 'sendhb'] for t in rng.sample(odd, min(len(odd), rng.choice([0, 0, 1, 2])))]
     if rng.random() < 0.2:
         ev.append([rng.choice(odd), 'close'])
@@ -188,8 +216,10 @@ def run(ctx):
     rng = ctx.rng
     thorough = ctx.tier == 'thorough'
     ctx.cov['rule'] = ('send schedules on a grid of I/8 (ticks on even instants, sends on odd ones): exhaustive up to '
-                       f"{3 if thorough else 2} sends over four intervals x 3 session kinds, then random schedules (isolated, tick-hugging, bursts, "
-                       'periodic; explicit heartbeats; peer feeding / silent / far; application close), unequal client/server intervals; '
+                       f"{3 if thorough else 2} send attempts, each accepted or rejected by the library (validation / encoding failure: raises before "
+                       'the write), over four intervals x 3 session kinds, then random schedules (isolated, tick-hugging, bursts, '
+                       'periodic; rejected attempts isolated / once per interval / tick-hugging / retried after a send; explicit heartbeats; '
+                       'peer feeding / silent / far; application close), unequal client/server intervals; '
                        'distinct = distinct (role, intervals, schedule, horizon)')
     ctx.notes.append('ties between a monitor tick and an external event are excluded from generated schedules; heartbeats written at the '
                      'instant the remote monitor closes the session are not compared (timer-heap order of equal floats)')
